@@ -16,7 +16,7 @@ BOUNDED_PARTS = {
     "C06": ("grid", "frame"),
     "C09": ("dynamics", "placement", "frame", "objective", "pvals"),
     "C10": ("init",),
-    "C11": ("dynamics", "placement", "frame", "grid", "objective", "freetime"),
+    "C11": ("dynamics", "placement", "frame", "grid", "objective", "freetime", "init"),
     "C14": ("dynamics", "placement", "frame", "objective", "scaling"),
     "C13": ("dynamics", "placement", "frame", "objective", "pvals", "init"),
 }
